@@ -313,6 +313,9 @@ def project(prop, b, ev, ctx):
     elif prop == "C16":
         if k == "QUERY":
             return (None, (ok, tuple(b.qry) if b.qry else None, b.storage_changed))
+        if k in ("MIGRATE", "PMIGRATE", "INST") and b.has_dump:
+            # what get_contract_info / get_version_info will answer from now on
+            return (ok, (line_of(b, "CFG"), line_of(b, "VER")))
         if is_exec and b.has_dump:
             # what get_ask / get_bid of the ids this request names will answer from now on (the record, or "not on the book")
             ai, bi = ev.ids()
@@ -403,6 +406,17 @@ def model_backed(prop, ev, bi, bm, pre):
                         "C03_only_if lists the conditions an accepted match meets)" % merr)
             return ("eligible match refused (%s): the proved model carries it out, and C03_if shows every request meeting "
                     "the conditions of the property is accepted" % ierr)
+        if prop == "C04" and is_exec and sub in ("reject_ask", "reject_bid") and len(ev.args) > 1 and ev.args[1] != "-" and bi.ok != bm.ok:
+            ai, bids_ = ev.ids()
+            o = pre["asks"].get(ai[0]) if ai else pre["bids"].get(bids_[0]) if bids_ else None
+            cfg = pre["cfg"]
+            if not isinstance(o, (fmt.Ask, fmt.Bid)) or cfg is None or (legacy and not order_wellformed(o, cfg)):
+                return None
+            if bi.ok:
+                return ("%s by size %s accepted although the size rule of the property fails (the proved model refuses it, refusal point "
+                        "%s; C04_reverse_ask / C04_reverse_bid)" % (sub, ev.args[1], merr))
+            return ("%s by a positive multiple of the increment not exceeding what remains is refused (%s); the proved model carries it "
+                    "out (C04_reject_ask_if / C04_reject_bid_if)" % (sub, ierr))
         if prop == "C06" and k == "PEXEC" and sub in ("cancel_ask", "cancel_bid", "expire_ask", "expire_bid") and bm.ok and not bi.ok:
             ai, bids_ = ev.ids()
             o = pre["asks"].get(ai[0]) if ai else pre["bids"].get(bids_[0]) if bids_ else None
@@ -903,6 +917,11 @@ class Oracle:
             # assumption A-self (DESIGN section 5): the contract is never a sender, hence never an owner or approver; what it
             # pays to itself is invisible in the flows, so the flow-based oracles abstain for the rest of such a history
             self.self_sent = True
+        # a fee account equal to the contract's own address: what the contract pays to itself is invisible in the flows
+        # (assumption A-self covers fee accounts as it covers senders and owners)
+        fee_self = self.cfg is not None and SELF in [f[0] for f in (self.cfg.ask_fee, self.cfg.bid_fee) if f]
+        if fee_self:
+            self.self_sent = True      # for the rest of the history, like a request sent by the contract itself
         clean = self.tainted is None and not self.migration and not self.seeded and not self.self_sent
         # ---- C06: exit probes
         if k == "PEXEC" and ev.sub in ("cancel_ask", "cancel_bid", "expire_ask", "expire_bid") and clean:
@@ -1011,7 +1030,7 @@ class Oracle:
                         else:
                             want = dict((accts[s_], rep[s_]) for s_ in ("ask", "bid") if accts[s_])
                         for acct, amt in want.items():
-                            if acct not in parties and fl.get((acct, q), 0) != amt:
+                            if acct not in parties and acct != SELF and fl.get((acct, q), 0) != amt:
                                 out.append(("C17", None, "fee attributes report %d for %s, it received %d" % (amt, acct, fl.get((acct, q), 0))))
                     except Exception:
                         pass
@@ -1062,6 +1081,20 @@ class Oracle:
                                         out.append(("C02", None, "ask-fee account received %d, rate*price*size rounded half away from zero is %d" % (af, want_fee)))
                         if p < bp and fl.get((b0.owner, q), 0) < (bp - p) * s:
                             out.append(("C02", None, "price-improvement refund below (bid price - price)*size"))
+                        # the part of its escrowed fee the fill releases from the bid goes to the bid-fee account and, with the
+                        # refund, back to the bid's owner -- all of it, to nobody else (fees paid and returned add up, C09)
+                        nb = b.bids.get(bi[0])
+                        released = b0.rem_fee - (nb.rem_fee if isinstance(nb, fmt.Bid) else 0)
+                        bfa = self.cfg.bid_fee[0] if self.cfg.bid_fee else None
+                        to_fee_acct = fl.get((bfa, q), 0) if bfa else 0
+                        refund = (bp - p) * s
+                        if refund.denominator == 1 and b0.fee:
+                            to_owner = fl.get((b0.owner, q), 0) - int(refund)
+                            if to_fee_acct + to_owner != released:
+                                msg = ("the fill released %d of the bid's escrowed fee; the bid-fee account received %d and the owner %d"
+                                       % (released, to_fee_acct, to_owner))
+                                out.append(("C02", None, msg))
+                                out.append(("C09", None, msg))
                 elif ev.sub in REVERSE:
                     side_ask = bool(ai)
                     o = self.asks.get(ai[0]) if side_ask else self.bids.get(bi[0])
